@@ -22,6 +22,9 @@ pub struct BbCase {
     pub qualified: bool,
     /// Mutually independent targets that wait for each other (C17); empty otherwise.
     pub rendezvous: Vec<usize>,
+    /// Every build target declares an input directory (so that state is computed and stored).
+    #[serde(default)]
+    pub with_inputs: bool,
 }
 
 const READ_ST: &str =
@@ -102,11 +105,15 @@ pub fn write_bb_project(sb: &Sandbox, case: &BbCase) -> std::path::PathBuf {
                 continue;
             }
             let deps: Vec<String> = t.deps.iter().map(|&j| g.reference(i, j)).collect();
-            let input: Vec<Value> = t
+            let mut input: Vec<Value> = t
                 .outdeps
                 .iter()
                 .map(|&j| json!(format!("{}.output", g.reference(i, j))))
                 .collect();
+            if case.with_inputs && t.kind == Kind::Build {
+                input.push(json!({"paths": [format!("in_{}", i)]}));
+                sb.write(&format!("{}/in_{}/x.txt", proj_rel(p), i), format!("input of {}\n", i).as_bytes());
+            }
             let doc = match t.kind {
                 Kind::Build => json!({
                     "dependencies": deps,
@@ -280,6 +287,12 @@ pub struct BbParams {
     pub rendezvous: bool,
 }
 
+impl BbParams {
+    fn with_inputs(&self) -> bool {
+        self.rendezvous
+    }
+}
+
 pub fn bb_case(p: BbParams) -> impl Strategy<Value = BbCase> {
     (
         raw_graph(p.max_n),
@@ -336,6 +349,7 @@ pub fn bb_case(p: BbParams) -> impl Strategy<Value = BbCase> {
                 exit_code,
                 qualified,
                 rendezvous,
+                with_inputs: p.with_inputs(),
             }
         })
 }
